@@ -32,6 +32,34 @@ func checkC18(c *Ctx) {
 	c.Rule("R18.1", "kind table: accessor ↔ kind ↔ constructor type; fallback; empty-Attr first", 4)
 	c.Rule("R18.2", "level map: descending thresholds with non-increasing zap levels; shared by Enabled and Handle", 2)
 	c.Rule("R18.3", "slog.Handler contract clauses: empty group name, empty group attribute, inline group", 2)
+	c.Rule("R18.7", "group members are represented by the one attribute conversion (no second implementation next to convertAttrToField)", 1)
+	cDelegatesOnly(c, "R18.7", c.Method(SlogPath, "groupObject", "MarshalLogObject"), "members-through-conversion",
+		"every member of a group reaches the encoder as convertAttrToField(member).AddTo(enc), so the rules for empty groups, inlining, resolution and kinds hold at every nesting depth",
+		func(cl *ssa.Call, st *ConcState) bool {
+			if !IsCallTo(cl, "(go.uber.org/zap/zapcore.Field).AddTo") {
+				return false
+			}
+			v := Args(cl)[0]
+			for k := 0; k < 12; k++ {
+				if call, ok := v.(*ssa.Call); ok {
+					return IsCallTo(call, SlogPath+".convertAttrToField")
+				}
+				if u, ok := v.(*ssa.UnOp); ok {
+					if al, ok := u.X.(*ssa.Alloc); ok {
+						if sv := singleStoreLoose(al); sv != nil {
+							v = sv
+							continue
+						}
+					}
+				}
+				nx := st.Step(v)
+				if nx == nil {
+					return false
+				}
+				v = nx
+			}
+			return false
+		})
 	c.Rule("R18.4", "Handle and WithAttrs agree on the emission of pending groups", 2)
 	c.Rule("R18.5", "WithAttrs/WithGroup are pure derivations", 3)
 	c.Rule("R18.6", "a record is handled iff Core.Check accepts the mapped level", 2)
@@ -1122,4 +1150,76 @@ func c18EmitProtocol(c *Ctx, rule string) {
 		}
 	}
 
+}
+
+// cDelegatesOnly: fn is an adapter that must leave the representation to the one routine that owns it. Explored with
+// its helpers inline, every method it calls on the encoder it was handed is reached through one of the allowed
+// delegates (which are not explored) - any direct use of the encoder is a second implementation that the rules
+// deciding the first one do not see.
+func cDelegatesOnly(c *Ctx, rule string, fn *ssa.Function, slot, what string, allowed func(cl *ssa.Call, st *ConcState) bool) {
+	if fn == nil {
+		return
+	}
+	var encP ssa.Value
+	for _, p := range fn.Params {
+		if strings.HasSuffix(p.Type().String(), "zapcore.ObjectEncoder") || strings.HasSuffix(p.Type().String(), "zapcore.ArrayEncoder") {
+			encP = p
+		}
+	}
+	if encP == nil {
+		c.Und(rule, fn.String(), slot, fn.Pos(), "no encoder parameter")
+		return
+	}
+	resolve := func(st *ConcState, v ssa.Value) ssa.Value {
+		for k := 0; k < 16 && v != nil; k++ {
+			switch x := v.(type) {
+			case *ssa.ChangeInterface:
+				v = x.X
+				continue
+			case *ssa.MakeInterface:
+				v = x.X
+				continue
+			}
+			nx := st.Step(v)
+			if nx == nil {
+				break
+			}
+			v = nx
+		}
+		return v
+	}
+	var direct []string
+	nDeleg := 0
+	seqs, trunc := ConcPaths(fn, ConcCfg{
+		MaxIter: 2,
+		Inline: func(h *ssa.Function) bool {
+			return h != fn && h.Pkg == fn.Pkg
+		},
+		Event: func(in ssa.Instruction, st *ConcState) string {
+			x, ok := in.(*ssa.Call)
+			if !ok {
+				return ""
+			}
+			if allowed(x, st) {
+				nDeleg++
+				return "delegate"
+			}
+			// a method of the encoder called directly, or the encoder handed to anything else
+			if x.Call.IsInvoke() && resolve(st, x.Call.Value) == encP {
+				direct = append(direct, "enc."+x.Call.Method.Name())
+				return "direct"
+			}
+			for _, a := range x.Call.Args {
+				if resolve(st, a) == encP {
+					if sc := x.Call.StaticCallee(); sc != nil && sc.Pkg == fn.Pkg && len(sc.Blocks) > 0 && sc != fn {
+						return "" // explored inline
+					}
+					direct = append(direct, "encoder handed to "+st.Desc(x.Call.Value))
+					return "direct"
+				}
+			}
+			return ""
+		},
+	})
+	c.Check(!trunc && len(seqs) > 0 && len(direct) == 0 && nDeleg > 0, rule, fn.String(), slot, fn.Pos(), "%s; direct uses of the encoder: %v", what, uniqSorted(direct))
 }
